@@ -9,11 +9,17 @@ CHECK = dict(
     level_note=("Trusted: the scheduler/runtime model in engine/tbbrt (owner LIFO, thief FIFO, task-boundary scheduling points, isolation tags), sequential "
                 "consistency (relaxed/acquire-release reorderings are not enumerated), spurious compare_exchange_weak failures are not modelled. "
                 "kSeqThreshold is lowered (hook H3) so merge/radix/scan split at tiny sizes; the production constant is exercised by C04's scale-L programs."),
-    runs=[S("par-model", quick=600, thorough=3000, workers=16, case_timeout=600)],
+    runs=[S("par-model", quick=1500, thorough=5400, workers=16, case_timeout=600),
+          # binding of the scheduler model to the implementation: canonical traces of small TBB programs, model (exhaustive) vs real libtbb
+          S("par-model", quick=900, thorough=3600, workers=16, case_timeout=900, harness="TBBCONF"),
+          S("par-tbb", quick=300, thorough=900, workers=2, harness="TBBCONF")],
     rule=("cases = (primitive, input sequence, reported concurrency); per case ALL schedules within the bound are executed. distinct = cases; non-trivial = "
           "cases in which at least one explored schedule had a task stolen by another worker (primitives) / more than one interleaving (containers). "
-          "executions = total schedules run."),
-    bounds=dict(quick="26 primitives x all 364 sequences of length <= 5 x C in {2,4}, W=2 workers, preemption bound 2 (len<=4) / 1 (len 5); DisjointSets: 625 programs "
+          "executions = total schedules run. Run TBBCONF/par-model enumerates the model's canonical traces, run TBBCONF/par-tbb checks every canonical trace "
+          "of real libtbb (arenas of 1-3 threads) against them: traces_validated counts those."),
+    bounds=dict(quick="26 primitives x all 1093 sequences of length <= 6 x C in {1,2,4}, W=2 workers, preemption bound 3 (len<=4) / 2; unique at 4 lengths around its 65536-element "
+                      "chunk seams x 81 seam windows x C in {2,4}, bound 1; radix sort with kSeqThreshold=2 on all 2-letter inputs of length 9 (bound 2) and 12 (bound 1); "
+                      "TBBCONF: 58 trace programs x (W=2,C=1), (W=2,C=2) complete up to an execution cap, (W=3,C=3) bound 4, vs libtbb arenas 1..16 x 1500 runs; DisjointSets: 625 programs "
                       "of 2 threads x 2 unites on 4 elements, bound 2; HashTableD: 2592 programs of 2 threads x 2 inserts (sizes 8 and 4), bound 2",
                 thorough="sequences of length <= 7, C in {1,2,4}, W=3, bound 3 (len<=5) / 2; containers: + 3-thread programs, bound 3"),
     assumptions=COMMON_ASSUME + ["sequentially consistent interleavings only", "scheduling points at task boundaries / spawn / wait and at hooked atomics only"],
